@@ -130,6 +130,19 @@ claim(
     "DESIGN.md section 5 / C14",
 )
 
+claim(
+    "C15",
+    "model_checking",
+    "C-history + B-schedule (fake Pool)",
+    "exhaustive enumeration of advance/take_step call sequences, of Pool task orders, and of (step cost, budget) pairs under a virtual clock, on the real samplers",
+    "advance(m) for every m in [0,260] (quick: [0,130] plus 199..260 edge values) on fresh and already-advanced chains, all pairs (m1,m2) in [0,12]^2 / [0,30]^2, interleaved take_step, with and without progress display, "
+    "ensemble with 3-5 walkers, one-parameter chains across the first adaptation: reported length = stored samples = stored probabilities and delta = m (x walkers). ChainPool through a fake Pool that pickles each task in and out "
+    "and executes the tasks in EVERY order, compared with the same chains (same generator states) advanced serially, plus real multiprocessing Pool runs. run_for under a virtual clock (module-global time() replaced) for "
+    "per-evaluation costs 1e-6 s .. 600 s (constant and alternating) x budgets 1 s / 1 min / 1 h: terminates, no idle spin (10^4 clock readings without a step), returns only after the budget, no step after the deadline was seen, counters consistent.",
+    "virtual clock advanced by the user's posterior; Pool tasks run one at a time (workers are separate processes)",
+    "DESIGN.md section 5 / C15",
+)
+
 ALL = [f"C{i:02d}" for i in range(1, 21)]
 PENDING_REASON = "check under construction in this session (design in DESIGN.md section 5); not yet claimed"
 
